@@ -555,6 +555,24 @@ def corpus_item(item):
                 except TypeError:
                     skip("unhashable-tree")
                     break
+            if "journal" in inspect.getfullargspec(rule).args:
+                # the rule's undo journal: run it on a copy, use the rewritten tree as a dict key (that caches its hashes),
+                # roll back; the rolled-back tree is again subject to the contract
+                try:
+                    from sqlglot.optimizer.journal import revert as _revert
+
+                    t2 = t.copy()
+                    if prehash:
+                        hash(t2)
+                    jr = []
+                    r2 = rule(t2, journal=jr, **_rule_kwargs(rule, possible))
+                    if isinstance(r2, Expr):
+                        hash(r2)
+                        _revert(jr)
+                        check(r2, rule.__name__ + "+revert")
+                        check(t2, rule.__name__ + "+revert")
+                except (SqlglotError, TypeError) as e:
+                    skip(f"{rule.__name__}+revert:{type(e).__name__}")
             before = fingerprint(t, ids=True, sql=False)
             try:
                 t = rule(t, **_rule_kwargs(rule, possible))
@@ -663,6 +681,16 @@ PART_B_EXTRA = [
     "WITH w AS (SELECT a, b FROM t) SELECT w.a, w.b, w2.a, w2.b FROM w JOIN w AS w2 ON w.a = w2.a WHERE w.b = w2.b",
     "SELECT a AS x, a AS y, a + a AS z FROM t GROUP BY a, a HAVING a > 0 AND a < 9 ORDER BY a, a",
     "SELECT t.a, t.a, t.* FROM t AS t WHERE t.a IN (SELECT t.a FROM t AS t WHERE t.a = t.a)",
+    # function-style date arithmetic that simplify tries to fold through a helper Interval (and keeps when an operand is a column),
+    # with plain, string and parenthesised units
+    "SELECT DATE_ADD(a, 1, 'day'), DATE_SUB(a, 2, 'week'), DATETIME_ADD(b, 3, 'hour'), DATETIME_SUB(b, 4, 'minute') FROM t WHERE DATE_ADD(a, 1, 'month') > b",
+    "SELECT DATE_ADD(a, INTERVAL 1 DAY), DATE_SUB(a, INTERVAL 2 WEEK), DATETIME_ADD(b, INTERVAL 3 HOUR) FROM t WHERE DATE_SUB(a, INTERVAL 1 MONTH) >= CAST('2020-01-01' AS DATE)",
+    "SELECT DATE_ADD(a, INTERVAL 1 WEEK(MONDAY)), TIMESTAMP_ADD(b, INTERVAL 5 MINUTE), DATE_TRUNC(a, MONTH), DATE_DIFF(a, b, DAY) FROM t",
+    "SELECT DATEADD(day, 1, a), DATEADD(month, -1, b), DATEDIFF(day, a, b) FROM t WHERE DATEADD(year, 1, a) < CAST('2021-01-01' AS DATE)",
+    # unused CTEs / projections (what the rules with an undo journal remove), GROUP BY ordinals to renumber
+    "WITH y AS (SELECT a FROM t), z AS (SELECT b FROM t) SELECT b FROM z",
+    "WITH y AS (SELECT a FROM t) SELECT a FROM (SELECT a, b, c FROM t) AS s",
+    "SELECT a FROM (SELECT a, b, COUNT(*) AS n FROM t GROUP BY 1, 2) AS s",
 ]
 
 
